@@ -113,6 +113,46 @@ func c19R2(c *Ctx, r *Report) {
 	for _, ci := range callsIn(fn, "sort.Sort") {
 		sorted = append(sorted, ci)
 	}
+	// the order the cascade relies on: newest first (Less(i,j) == version i is greater than version j)
+	if less := c.Func("updater.(*Resource).Less"); less == nil {
+		r.Undecided(rule, "updater.(*Resource).Less", "anchor function missing")
+	} else {
+		eachInstr(less, func(in ssa.Instruction) {
+			ret, ok := in.(*ssa.Return)
+			if !ok {
+				return
+			}
+			okOrder := false
+			idxOf := func(v ssa.Value) ssa.Value {
+				// Versions[k].semVer
+				for _, l := range c.Leaves(v) {
+					if u, ok := l.(*ssa.UnOp); ok {
+						if fa, ok := u.X.(*ssa.FieldAddr); ok {
+							if u2, ok := fa.X.(*ssa.UnOp); ok {
+								if ia, ok := u2.X.(*ssa.IndexAddr); ok {
+									return ia.Index
+								}
+							}
+						}
+					}
+				}
+				return nil
+			}
+			if call, isCall := retVal(ret, 0).(*ssa.Call); isCall && len(call.Call.Args) == 2 {
+				a, b := idxOf(call.Call.Args[0]), idxOf(call.Call.Args[1])
+				pi, pj := ssa.Value(less.Params[1]), ssa.Value(less.Params[2])
+				cn := calleeName(&call.Call)
+				switch {
+				case strings.HasSuffix(cn, "Version.GreaterThan"):
+					okOrder = a == pi && b == pj
+				case strings.HasSuffix(cn, "Version.LessThan"):
+					okOrder = a == pj && b == pi
+				}
+			}
+			r.Check(okOrder, rule, "updater.(*Resource).Less / newest version sorts first", "Less(i, j) is Versions[i] > Versions[j]",
+				"the sort order is not 'newest first': 'newest selectable' and the Versions[0] fallback pick the oldest version", c.Pos(ret.Pos()))
+		})
+	}
 	eachInstr(fn, func(in ssa.Instruction) {
 		st, ok := in.(*ssa.Store)
 		if !ok {
